@@ -29,6 +29,9 @@ type Profile struct {
 	ManyNames    int // >0: extend the alphabet to this many names in some runs
 	ExpiryTimes  bool
 	MultiSpan    bool
+	RoleW        []map[string]int // per-task op weights (task i uses RoleW[i%len])
+	ForceLocalP  bool             // every descriptor-local call is a decision point
+	PopularP     float64          // probability of a transaction that points many refs at one object id
 }
 
 var defaultNames = []string{"HEAD", "refs/heads/a", "refs/heads/b", "refs/heads/c", "refs/tags/t", "refs/tags/u", "refs/x/y", "refs/x/z"}
@@ -94,6 +97,7 @@ type genCtx struct {
 	names  []string
 	nextID int
 	timeLo uint64
+	role   map[string]int
 }
 
 func (g *genCtx) txn() TxnSpec {
@@ -107,8 +111,19 @@ func (g *genCtx) txn() TxnSpec {
 		tx.Bad = []string{"stale-index", "big", "closure-error"}[r.Intn(3)]
 	}
 	nr := pickN(r, g.p.RefsPerTxn[0], g.p.RefsPerTxn[1])
+	popular := 0
+	if g.p.PopularP > 0 && r.Bool(g.p.PopularP) {
+		nr = 20 + r.Intn(45)
+		popular = 1 + r.Intn(2)
+	}
 	for i := 0; i < nr; i++ {
 		rs := RefSpec{Name: g.names[r.Intn(len(g.names))]}
+		if popular > 0 {
+			rs.Kind = RefVal
+			rs.OidTag = popular
+			tx.Refs = append(tx.Refs, rs)
+			continue
+		}
 		switch x := r.Intn(10); {
 		case x < 3:
 			rs.Kind = RefDel
@@ -207,7 +222,11 @@ func (g *genCtx) exp() *ExpSpec {
 
 func (g *genCtx) op(h int) OpSpec {
 	r := g.r
-	k := weighted(r, g.p.W, opOrder)
+	wts := g.p.W
+	if g.role != nil {
+		wts = g.role
+	}
+	k := weighted(r, wts, opOrder)
 	op := OpSpec{Kind: k, H: h}
 	switch k {
 	case OpAdd:
@@ -312,6 +331,10 @@ func GenConc(prop string, seed uint64, p *Profile) *RunSpec {
 	for t := 0; t < nt; t++ {
 		ts := TaskSpec{Name: fmt.Sprintf("p%d", t)}
 		ts.Ops = append(ts.Ops, OpSpec{Kind: OpOpen, H: t, Auto: r.Bool(p.AutoP)})
+		g.role = nil
+		if len(p.RoleW) > 0 {
+			g.role = p.RoleW[t%len(p.RoleW)]
+		}
 		n := pickN(r, p.MinOps, p.MaxOps)
 		for i := 0; i < n; i++ {
 			ts.Ops = append(ts.Ops, g.op(t))
@@ -320,6 +343,9 @@ func GenConc(prop string, seed uint64, p *Profile) *RunSpec {
 		spec.Tasks = append(spec.Tasks, ts)
 	}
 	spec.Sched = schedSpec(simrt.NewRng(seed, "schedcfg"), est)
+	if p.ForceLocalP {
+		spec.Sched.LocalP = 1
+	}
 	return spec
 }
 
